@@ -318,6 +318,11 @@ func genSVat(r *lib.Rand, h *History, sweep int) {
 	// a typical life: two bindings, calls, responses, blocks up to the expiry of unanswered requests
 	price := r.Range(1, 50)
 	h.Steps = append(h.Steps, Step{"bind", []string{"0", fmt.Sprint(price), fmt.Sprint(price*1000 + r.Range(0, 5000)), amt(1, 5)}})
+	if sweep >= 0 || r.Chance(1, 5) {
+		// an extreme price (2^200 or 2^190): under the default multiple an ordinary rejection (deposit too small)
+		huge := new(big.Int).Lsh(big.NewInt(1), uint(190+10*r.Intn(2)))
+		h.Steps = append(h.Steps, Step{"bind", []string{"1", huge.String(), "5000", "3"}})
+	}
 	if r.Chance(2, 3) {
 		h.Steps = append(h.Steps, Step{"bind", []string{"1", fmt.Sprint(price + 1), fmt.Sprint((price+1)*1000 + 5000), amt(1, 5)}})
 	}
